@@ -1007,6 +1007,17 @@ func replay(path string) {
 		os.Exit(2)
 	}
 	id := 0
+	// the two printer-variant witnesses first (the driver detects _current/_repaired from them)
+	{
+		c := Case{ID: id, Kind: "loose"}
+		id++
+		roundtrip(&c, &influxql.DurationLiteral{Val: 1})
+		gen.Emit(c)
+		c = Case{ID: id, Kind: "loose"}
+		id++
+		roundtrip(&c, &influxql.BinaryExpr{Op: influxql.GT, LHS: &influxql.VarRef{Val: "v"}, RHS: &influxql.NumberLiteral{Val: 2}})
+		gen.Emit(c)
+	}
 	for _, rc := range rp.Cases {
 		kind, _ := rc["kind"].(string)
 		c := Case{ID: id, Kind: kind}
